@@ -23,6 +23,44 @@ PROPS = {
              "laws: three pairwise different triples sharing a major version. Distinct = hash of the decoded case.",
         assumptions=COMMON_ASSUME + ["the library's own format version is read from a file it has just created"],
     ),
+    "C05": dict(
+        bin="h_access", sub="c05", level="exploration",
+        technique="rapidcheck-generated arrays (every descriptor kind), tags and features; returned view (shape AND element identities) compared with a brute-force evaluation of the statement over the axis coordinates",
+        level_text="generated DataArrays of rank 1-3 (extent 1-9, element = own linear index) with every combination of sampled (decimal, "
+                   "binary, random intervals and offsets), range, set (with / without labels) and data-frame descriptors; tags with 1..rank+1 "
+                   "position entries on / one ulp beside / between / below / beyond the coordinates, extent absent / zero / ending on, "
+                   "between, outside coordinates / negative / tiny / of wrong length, units absent, equal or prefix-scaled, both RangeMatch "
+                   "modes through six entry points (also the default-mode ones); tagged, untagged and indexed features. The expected block is "
+                   "the index set {i: p <= x_i <= p+e} / {i: p <= x_i < p+e} per specified dimension, everything along unspecified ones, "
+                   "nix::OutOfBounds when empty or outside the data; the view must have that shape and return exactly those elements; "
+                   "getOffsetAndCount must agree",
+        level_note="p+e is formed in double as the library documents; scaled requests use positions inside sample intervals and are skipped "
+                   "(counted) when a 1e-9 relative change of the scaling factor would change the answer; known finding KF-1 is recognised by "
+                   "its exact signature only",
+        quick=dict(cases=2500, size=200, workers=16, timeout=1800),
+        thorough=dict(cases=60000, size=200, workers=16, timeout=14400),
+        rule="tape -> array spec, tag request, mode, entry point, optional feature. Non-trivial: the expected region is a proper sub-block in "
+             "a specified dimension with a boundary on or within one ulp of a coordinate, or a dimension is unspecified, or an error is "
+             "expected. Distinct = hash of the decoded case.",
+        assumptions=COMMON_ASSUME + ["descriptors conform to the data (as many ticks / labels / rows as elements), as the statement presupposes"],
+    ),
+    "C06": dict(
+        bin="h_access", sub="c06", level="exploration",
+        technique="rapidcheck-generated arrays, positions/extents matrices, indices and index lists; every returned view (shape and element identities) compared with the brute-force region of row i; list retrieval compared element-wise with single retrievals",
+        level_text="arrays as in C05; positions N (1-D data) or N x D' (N 1-8, D' = rank, smaller or larger) with per-row position and "
+                   "extent classes as in C05, extents absent or of the same shape, per-dimension units absent / equal / prefix-scaled, both "
+                   "modes through the explicit and the default-mode entry points; every index in and beyond [0,N), index lists (empty = all, "
+                   "with duplicates, reversed); indexed, tagged and untagged features. Expected: the brute-force block of row i (C05 "
+                   "reference), nix::OutOfBounds for an index beyond N or an empty / outside region, list == list of singles, indexed "
+                   "feature = slice i of the first dimension, getOffsetAndCount equal to the block",
+        level_note="as C05; tagged features of 1-D positions are 1-D (the statement pairs 1-D positions with 1-D data); known finding KF-1 is "
+                   "recognised by its exact signature only (it needs extents)",
+        quick=dict(cases=600, size=300, workers=16, timeout=1800),
+        thorough=dict(cases=15000, size=300, workers=16, timeout=14400),
+        rule="tape -> array spec, N, D', rows, mode, 1-4 single retrievals, one list retrieval, optional feature. Non-trivial: N >= 2 and a "
+             "retrieval with i > 0, or no extents, or an expected error. Distinct = hash of the decoded case.",
+        assumptions=COMMON_ASSUME + ["descriptors conform to the data (as many ticks / labels / rows as elements)"],
+    ),
     "C07": dict(
         bin="h_access", sub="c07", level="exploration",
         technique="rapidcheck-generated axes and positions (on, one ulp beside, between, beyond coordinates) against a brute-force search over the axis",
